@@ -62,6 +62,7 @@ struct GenCtx {
   std::vector<int> label_used;
   int budget = 0;                  // statements left for this routine
   bool in_ite = false;
+  int jl_serial = 0;
   int in_slot = 0;   // inside text that a user macro must match as a slot (<V>, <P>, <ARGS>)
 };
 
@@ -245,6 +246,34 @@ std::vector<Stmt> gen_routine_body(GenCtx &c, int maxn) {
   c.nlabels = 0; c.label_used.clear();
   c.budget = c.gp.max_stmts;
   std::vector<Stmt> body = gen_block(c, 0, maxn);
+  if (c.gp.jump_into_loop > 0 && (int)c.rng.below(100) < c.gp.jump_into_loop) {
+    // jump from outside into the body of a loop nested 1-2 deep, after code that leaves non-zero scratch values behind
+    std::string lab = "j" + std::to_string(c.routine + 1) + "_" + std::to_string(c.jl_serial++);
+    std::vector<Stmt> pat;
+    std::string v = pick_var(c);
+    long long k = c.rng.range(1, 9);
+    { Stmt a; a.k = Stmt::ASSIGN; a.var = v; a.val.k = Val::CONST; a.val.c = k; pat.push_back(a); }
+    if (c.rng.chance(1, 2)) { Stmt a; a.k = Stmt::ASSIGN; a.var = pick_var(c); a.val.k = c.rng.chance(1, 2) ? Val::ADD : Val::SUB; a.val.var = v; a.val.c = c.rng.range(1, 5); pat.push_back(a); }
+    if (c.rng.chance(2, 3)) { Stmt j; j.k = Stmt::IF; j.var = v; j.c = c.rng.chance(4, 5) ? k : k + 1; j.target = lab; pat.push_back(j); }
+    else { Stmt j; j.k = Stmt::GOTO; j.target = lab; pat.push_back(j); }
+    Stmt inner_target; inner_target.k = Stmt::ASSIGN; inner_target.var = pick_var(c); inner_target.val.k = Val::ADD; inner_target.val.var = inner_target.var; inner_target.val.c = 1;
+    inner_target.labels.push_back(lab);
+    Stmt after; after.k = Stmt::ASSIGN; after.var = pick_var(c); after.val.k = Val::ADD; after.val.var = after.var; after.val.c = c.rng.range(1, 3);
+    Stmt inner; inner.k = c.rng.chance(4, 5) ? Stmt::LOOP : Stmt::WHILE; inner.var = pick_var(c);
+    if (c.rng.chance(1, 2)) inner.body.push_back(after);
+    inner.body.push_back(inner_target);
+    if (c.rng.chance(1, 2)) inner.body.push_back(after);
+    if (inner.k == Stmt::WHILE) { Stmt d; d.k = Stmt::ASSIGN; d.var = inner.var; d.val.k = Val::SUB; d.val.var = inner.var; d.val.c = 1; inner.body.push_back(d); }
+    if (c.rng.chance(3, 5)) {
+      Stmt outer; outer.k = Stmt::LOOP; outer.var = pick_var(c);
+      if (c.rng.chance(1, 2)) outer.body.push_back(after);
+      outer.body.push_back(inner);
+      if (c.rng.chance(1, 2)) outer.body.push_back(after);
+      pat.push_back(outer);
+    } else pat.push_back(inner);
+    size_t at = c.rng.below(body.size() + 1);
+    body.insert(body.begin() + at, pat.begin(), pat.end());
+  }
   if (c.gp.stop_in_callee && c.routine >= 0 && c.rng.chance(1, 2)) {
     Stmt st; st.k = Stmt::STOP;
     body.insert(body.begin() + c.rng.below(body.size() + 1), st);
